@@ -129,7 +129,7 @@ def types_for(tier):
 
 
 def shards(tier, seed):
-    return types_for(tier)
+    return types_for(tier) + ['xtype']
 
 
 _COMPARE = None
@@ -347,11 +347,71 @@ def check_literals(t, r, ts, only=None):
                            {'type': ts, 'i': i, 'j': j, 'kind': kind, 'literal': True, 'a': ea, 'b': eb}, f'PUSH ({kind} {ts}) {{ {ea} ; {eb} }} -> {out}')
 
 
+def check_copies(t, r, ts):
+    """A value and its DUP-licate are the same value: COMPARE must give 0 in both operand orders, and a set built from both has one element."""
+    from mc import impl as M
+    from pytezos.michelson.stack import MichelsonStack
+    cls = A.mk_type(t)
+    ctx = M.make_context()
+    for i, v in enumerate(dom(t)):
+        e, ref = split(t, v)
+        for prog in ([M.P('DUP'), M.P('COMPARE')], [M.P('DUP'), M.P('SWAP'), M.P('COMPARE')],
+                     [M.P('DUP'), M.P('DIP', [M.P('DUP')]), M.P('SWAP'), M.P('DROP'), M.P('COMPARE')]):
+            st = MichelsonStack([cls.from_micheline_value(e)])
+            out = M.run_on_stack(prog, st, ctx)
+            r.ev()
+            got = st.items[0].value if out[0] == 'ok' and len(st.items) == 1 and st.items[0].prim == 'int' else out
+            r.out('copy compares equal' if got == 0 else 'copy compares DIFFERENT')
+            if got != 0:
+                r.viol(f'a value does not compare equal to its own copy (DUP): {t[0]}', {'type': ts, 'i': i, 'j': i, 'a': e, 'b': e, 'copy': True},
+                       f'{ts} {e}: {"; ".join(x["prim"] for x in prog)} -> {got}')
+
+
+STRING_FAMILY = [('address',), ('key',), ('key_hash',), ('signature',), ('chain_id',)]
+
+
+def check_cross_type(r):
+    """The same TEXTS compared as `string` and as their own type, interleaved in one process: each COMPARE depends on its own
+    operands and types only (strings follow plain string order, the domain types their own order)."""
+    S = ('string',)
+    scls = A.mk_type(S)
+    for t in STRING_FAMILY:
+        cls = A.mk_type(t)
+        D = dom(t)
+        sp = [split(t, v) for v in D]
+        ts = T.t_str(t)
+        for order in ('string-first', 'own-first'):
+            for i in range(len(D)):
+                for j in range(len(D)):
+                    (ea, ra), (eb, rb) = sp[i], sp[j]
+                    if not pinned(t, ra, rb):
+                        continue
+                    exp_own = T.compare(t, ra, rb)
+                    exp_str = T.compare(S, ea['string'], eb['string'])
+                    seq = [('string', scls, exp_str), (ts, cls, exp_own)]
+                    if order == 'own-first':
+                        seq.reverse()
+                    seq.append(seq[0])
+                    for name, c, exp in seq:
+                        got = impl_compare(c, ea, eb)
+                        r.ev()
+                        r.nt(('xtype', ts, order, i, j, name))
+                        r.out('cross-type ok' if got == exp else 'cross-type WRONG')
+                        if got != exp:
+                            r.viol(f'COMPARE on {name} gives a different answer after the same texts were compared as another type',
+                                   {'type': ts, 'i': i, 'j': j, 'a': ea, 'b': eb, 'xtype': order},
+                                   f'{order}: COMPARE as {name} of {ea["string"]} / {eb["string"]} -> {got}, expected {exp}')
+
+
 def run_shard(t, tier):
     r = Result()
+    if t == 'xtype':
+        check_cross_type(r)
+        return r
     check_type(t, r)
     if t[0] != 'never':
         check_literals(t, r, T.t_str(t))
+        check_copies(t, r, T.t_str(t))
     D = dom(t)
     if len(D) >= 2:
         sp0, sp1 = split(t, D[0]), split(t, D[-1])
@@ -370,6 +430,12 @@ def _find_type(ts):
 def replay(case):
     t = _find_type(case['type'])
     r = Result()
+    if case.get('xtype'):
+        check_cross_type(r)
+        return [(d, v['cases'][0]['detail']) for d, v in r.violations.items()]
+    if case.get('copy'):
+        check_copies(t, r, case['type'])
+        return [(d, v['cases'][0]['detail']) for d, v in r.violations.items()]
     if case.get('literal'):
         check_literals(t, r, case['type'], only=(case['i'], case['j']))
     elif 'perm' in case:
